@@ -13,6 +13,6 @@ PROP = dict(
     assumptions=TRUST + ['interleavings are sampled (payload-injected yields + generated pauses), not enumerated',
                          'TSan happens-before analysis decides race freedom of the executed accesses independent of timing'],
     bins=[rc('C12_transactional_tsan', 'harness/C12_transactional.cpp', None, cxx='g++', san='-fsanitize=thread -fno-omit-frame-pointer',
-             flags='-DC12_BIN=\\"C12_transactional_tsan\\"', thorough=dict(scale=8, seeds=4)),
+             flags='-DC12_TSAN -DC12_BIN=\\"C12_transactional_tsan\\"', thorough=dict(scale=8, seeds=4)),
           rc('C12_transactional', 'harness/C12_transactional.cpp', None, thorough=dict(scale=8, seeds=4))],
 )
